@@ -103,6 +103,41 @@ fn main() {
         "worker" => {
             vh::engine::isolate::worker_main(vh::engine::jobs::handle);
         }
+        "selfcheck" => {
+            // the harness writer against the harness reader: every generated (unencrypted) document validates
+            let n: u64 = pos.get(0).and_then(|s| s.parse().ok()).unwrap_or(300);
+            let strat = vh::engine::docgen::spec_strategy();
+            let mut bad = 0;
+            for k in 0..n {
+                let mut spec = vh::engine::runner::nth_case(&strat, seed, k);
+                spec.encrypt = 0;
+                let built = vh::engine::docgen::build(&spec);
+                match vh::engine::reader::Reader::load(&built.file) {
+                    Err(e) => {
+                        bad += 1;
+                        println!("case {}: reader cannot load: {} labels {:?}", k, e, built.labels);
+                    }
+                    Ok(r) => {
+                        let p: Vec<String> = r.validate().into_iter().filter(|m| !m.contains("which is undefined") && !m.contains("which is free")).collect();
+                        if !p.is_empty() {
+                            bad += 1;
+                            println!("case {}: {:?} labels {:?}", k, &p[..p.len().min(3)], built.labels);
+                        }
+                    }
+                }
+            }
+            for f in vh::engine::corpus::load(&verif_dir, false) {
+                match vh::engine::reader::Reader::load(&f.data) {
+                    Err(e) => println!("corpus {}: reader cannot load: {}", f.name, e),
+                    Ok(r) => {
+                        let p = r.validate();
+                        println!("corpus {}: {} objects, {} problems {:?}", f.name, r.xref.len(), p.len(), p.iter().take(2).collect::<Vec<_>>());
+                    }
+                }
+            }
+            println!("{} of {} generated documents had problems", bad, n);
+            std::process::exit(if bad == 0 { 0 } else { 2 });
+        }
         "list" => {
             for p in props::all() {
                 println!("{}", p.id);
